@@ -104,7 +104,8 @@ theorem finishMarshal_ok {β : Type} (T : Tables) (hT : T.OK) (maxLen : Nat) (st
       (∀ f ∈ fs, f.1 < 256) ∧ ((∀ f ∈ fs, NoNulSig f.2) → fs.all Field.wf = true) ∧
       (∀ fds, fs.map (fun f => (f.1, pyOf fds f.2)) =
          (liveEntries attrs table).map (fun ent => (ent.2.1, plain (attrs ent.1)))) ∧
-      (∀ s, attrs .path = .str .plain s → (∃ ent ∈ table, ent.1 = .path) → Valid.validateObjectPath s = .accept) := by
+      (∀ s, attrs .path = .str .plain s → (∃ ent ∈ table, ent.1 = .path) → Valid.validateObjectPath s = .accept) ∧
+      m.otherFlags = 0 := by
   obtain ⟨hs, fs, h1, h2, h3, h4, h5, h6⟩ := buildHeaders_spec attrs hok table
   refine ⟨fs, h2, ?_⟩
   unfold finishMarshal at h
@@ -113,6 +114,8 @@ theorem finishMarshal_ok {β : Type} (T : Tables) (hT : T.OK) (maxLen : Nat) (st
   rw [hT.format] at h
   rw [if_neg (by simp [headerFormatStr])] at h
   rw [hT.endian, hT.version] at h
+  have hfw : flagsWith 0 p.expectReply p.autoStart = flagsByte p.expectReply p.autoStart := by simp [flagsWith]
+  rw [hfw] at h
   cases hm : marshalHeader T.align (108 == 108) (.int .plain ((108 : Nat) : Nat)) (.int .plain (T.messageType p.cls : Nat))
       (.int .plain (flagsByte p.expectReply p.autoStart : Nat)) (.int .plain ((1 : Nat) : Nat))
       (.int .plain (binBody.length : Nat)) (.int .plain (st.nextSerial : Nat)) hs with
@@ -140,7 +143,7 @@ theorem finishMarshal_ok {β : Type} (T : Tables) (hT : T.OK) (maxLen : Nat) (st
         simp [headerPadding, Spec.headerPad, hblen, hT.headerAlign]
       have hpath := marshalHeader_path T.align hT.align true _ _ _ _ _ _ hs binHeader hm
       refine ⟨rfl, rfl, rfl, rfl, rfl, rfl, rfl, rfl, hhdr, hpad, ?_, by simpa [Msg.raw] using Nat.le_of_not_gt hlen,
-        b6, b5, ?_, b9, b10, ?_, ?_⟩
+        b6, b5, ?_, b9, b10, ?_, ?_, rfl⟩
       · simp only [Msg.raw, hpad]
         rw [hhdr]
         simp [Spec.encodeMsg, specOf]
@@ -330,6 +333,7 @@ structure Built {β : Type} (T : Tables) (C : BodyCodec β) (na : Char → Bool)
   fieldsPy : ∀ fds, sm.fields.map (fun f => (f.1, pyOf fds f.2)) =
       (liveEntries m.attrs (T.entries m.cls (hasFds m))).map (fun ent => (ent.2.1, plain (m.attrs ent.1)))
   pathOK : ∀ s, m.attrs .path = .str .plain s → Valid.validateObjectPath s = .accept
+  other : m.otherFlags = 0
   bodyCase : (truthy (c.pre.attrs .signature) = false ∧ m.rawBody = [] ∧ m.attrs .unixFds = .none) ∨
      (∃ sg fds', c.pre.attrs .signature = .str .plain sg ∧ sg ≠ [] ∧
         C.marshal sg c.pre.body c.oob = .ok (m.rawBody, fds') ∧
@@ -354,7 +358,7 @@ theorem construct_ok {β : Type} (T : Tables) (hT : T.OK) (C : BodyCodec β) (na
       rw [hb] at h
       dsimp only at h
       obtain ⟨b1, b2, b3, b4⟩ := marshalBody_ok T C c.pre (Call.preOK c) c.oob binBody attrs table hb
-      obtain ⟨fs, f0, f1, f2, f3, f4, f5, f6, f7, f8, f9, f10, f11, f12, f13, f14, f15, f16, f17, f18, f19⟩ :=
+      obtain ⟨fs, f0, f1, f2, f3, f4, f5, f6, f7, f8, f9, f10, f11, f12, f13, f14, f15, f16, f17, f18, f19, f20⟩ :=
         finishMarshal_ok T hT maxLen st st' c.pre binBody attrs table m b1 h
       refine ⟨specOf T c.pre st.nextSerial fs binBody, ?_⟩
       have hfds : hasFds m = !isNone (attrs .unixFds) := by simp [hasFds, f6]
@@ -363,7 +367,7 @@ theorem construct_ok {β : Type} (T : Tables) (hT : T.OK) (C : BodyCodec β) (na
                shape := by rw [f6]; exact b1,
                spec := ?_, smEq := by simp [specOf, f8], hdr := f9, pad := f10, raw := f11, len := f12,
                serialLt := f13, bodyLt := by rw [f8]; exact f14, arrayLt := f15, codes := f16, wf := f17,
-               fieldsPy := ?_, pathOK := ?_, bodyCase := ?_ }
+               fieldsPy := ?_, pathOK := ?_, other := f20, bodyCase := ?_ }
       · simp only [Msg.toSpec, f6, f3, hfds, ← b3, f0, Option.map_some, f4, f5, f2, f8, specOf]
       · intro fds
         rw [f6, f3, hfds, ← b3]
